@@ -52,6 +52,9 @@ pub struct WireState {
     pub read_limit: Option<usize>,
     pub read_waker: Option<Waker>,
     pub recv_calls: u64,
+    /// livelock monitor: number of recvmsg calls that were answered with EOF / a fatal error within one scheduler step
+    pub dead_reads_in_step: u64,
+    pub dead_reads_step: u64,
     pub recv_pending: u64,
     pub bytes_delivered: usize,
     /// (total bytes delivered so far, logical time) after each successful recvmsg
@@ -95,6 +98,8 @@ impl Wire {
             read_limit: None,
             read_waker: None,
             recv_calls: 0,
+            dead_reads_in_step: 0,
+            dead_reads_step: 0,
             recv_pending: 0,
             bytes_delivered: 0,
             delivered_at: Vec::new(),
@@ -291,6 +296,24 @@ impl ReadHalf for ScriptRead {
                 w.recv_calls += 1;
                 w.max_recv_request = w.max_recv_request.max(buf.len());
                 counted = true;
+                // Livelock monitor: once the transport has reported EOF or a fatal error, a reader that keeps calling
+                // recvmsg without ever suspending can make no progress. 100 000 such calls inside ONE scheduler step
+                // (one poll of one task) is reported by unwinding out of the poll; `Ctx::guarded` turns the marker into
+                // a finding instead of letting the process spin until the wall-clock watchdog.
+                let dead = w.failed || (w.eof_at_end && w.staged.is_empty() && w.avail.is_empty()) || w.read_limit.map_or(false, |l| w.bytes_delivered >= l);
+                if dead {
+                    let now = super::sched::now();
+                    if w.dead_reads_step != now {
+                        w.dead_reads_step = now;
+                        w.dead_reads_in_step = 0;
+                    }
+                    w.dead_reads_in_step += 1;
+                    if w.dead_reads_in_step > 100_000 {
+                        w.dead_reads_in_step = 0;
+                        drop(w);
+                        panic!("VERIF-MONITOR:reader-livelock-after-transport-end:recvmsg called 100000 times within one task poll after the transport reported EOF or an error");
+                    }
+                }
             }
             if let Some(limit) = w.read_limit {
                 if w.bytes_delivered >= limit {
